@@ -10,7 +10,9 @@ ALLOWED_AXIOMS = []
 READY = True
 RUN_IMPORT = "Dom.ViewRun"
 
-RULE = ("case = (npre npost v0 (v1..vn)): a view value v0 drawn from the grammar text | unit | element(tag in p/span/div, "
+RULE = ("case = (npre npost v0 (v1..vn)): a view value v0 drawn from the grammar text | unit | element(tag in p/span/div "
+        "and the raw-text elements textarea/style/script/noscript (ESCAPE_CHILDREN = false; about one element in four, "
+        "their child mostly a text, an Option or a tuple, every v1..vn mutating it), "
         "attributes id: Option<String>, hidden: bool, class: String, class:on: bool, style color: String; one child) | "
         "tuple of 2-3 | Either left/right | EitherOf3 | Option | Vec | array [T; 0..3] | StaticVec (= Fragment) | keyed list "
         "| i32 | &'static str, every child position type-erased with "
@@ -24,7 +26,8 @@ RULE = ("case = (npre npost v0 (v1..vn)): a view value v0 drawn from the grammar
 TRUSTED = [
     "Coq 8.16.1 kernel (coqc); every theorem of Properties_C03.v is 'Closed under the global context'",
     "extraction to OCaml with ExtrOcamlBasic only, ocamlfind ocamlopt, extract/driver.ml sexp I/O",
-    "harness/dom (Rust) `h_dom c03` building real tachys views (String, (), HtmlElement<P|Span|Div> with id/hidden/"
+    "harness/dom (Rust) `h_dom c03` building real tachys views (String, (), HtmlElement<P|Span|Div|Textarea|Style|Script|"
+    "Noscript> with id/hidden/"
     "class/class:on/style attributes, i32, &'static str, tuples, arrays, Either, EitherOf3, Option, Vec, StaticVec, "
     "keyed, AnyView) on the native in-memory "
     "DOM of the verif-hook commit, trusted to implement DOM insertBefore/remove/setAttribute/classList semantics",
@@ -40,7 +43,9 @@ ASSUMPTIONS = [
 ]
 LEVEL_TEXT = "proof"
 LEVEL_NOTE = ("unbounded machine-checked proof (rebuild = fresh render, for every sibling context, nesting depth and "
-              "history) for text (String, &str, i32), unit, elements with id/hidden/class/class:on/style attributes, "
+              "history) for text (String, &str, i32), unit, elements (any tag: the model's element is parametric in the "
+              "tag, as Render::build/rebuild of HtmlElement are on the client, so the raw-text elements textarea/style/"
+              "script/noscript are covered by the same theorems) with id/hidden/class/class:on/style attributes, "
               "tuples, arrays, Either, EitherOf3, Option, Vec and AnyView type changes; node-less views (StaticVec / "
               "Fragment, empty array: F-C03-ab) and exactly the failing class:on sub-case (F-C03-c, predicate compat) "
               "are excluded by hypotheses and refuted by three proved witnesses; keyed lists are part of the induction: "
@@ -60,6 +65,29 @@ IDS = [None, "i", "j"]
 def gen_attrs(rng):
     i = rng.choice(IDS)
     return [[] if i is None else [i], rng.randint(0, 1), rng.choice(CLASSES), int(rng.random() < 0.15), rng.choice(COLORS)]
+
+
+TAGS = ["p", "span", "div", "textarea", "style", "script", "noscript"]
+
+
+def gen_tag(rng):
+    """p / span / div, or (one in four) a raw-text element: textarea, style, script, noscript"""
+    return rng.randint(0, 2) if rng.random() < 0.75 else rng.randint(3, 6)
+
+
+def gen_raw_child(rng, depth):
+    """what people put into a raw-text element: a text, an optional text, a tuple of texts"""
+    t = lambda: rng.choice([[0, rng.choice(TEXTS)], [10, rng.choice(TEXTS)], [9, rng.randint(0, 9)]])
+    r = rng.random()
+    if r < 0.4 or depth <= 0:
+        return t()
+    if r < 0.6:
+        return [5, [t()] if rng.random() < 0.6 else []]
+    if r < 0.8:
+        return [3, [rng.choice([t(), [5, [t()] if rng.random() < 0.5 else []]]) for _ in range(rng.choice([2, 2, 3]))]]
+    if r < 0.9:
+        return [4, rng.randint(0, 1), t()]
+    return [6, [t() for _ in range(rng.choice([0, 1, 2]))]]
 
 
 def gen_view(rng, depth, keyed=False, static=True):
@@ -85,8 +113,11 @@ def gen_view(rng, depth, keyed=False, static=True):
     if k == "array":
         return [12, [sub() for _ in range(rng.choice([0, 1, 2, 2, 3]) if static else rng.choice([1, 2, 2, 3]))]]
     if k == "el":
+        tag = gen_tag(rng)
+        if tag >= 3 and rng.random() < 0.7:
+            return [2, tag, gen_attrs(rng), gen_raw_child(rng, depth)]
         child = sub() if depth > 0 else rng.choice([[0, rng.choice(TEXTS)], [1]])
-        return [2, rng.randint(0, 2), gen_attrs(rng), child]
+        return [2, tag, gen_attrs(rng), child]
     if k == "tuple":
         return [3, [sub() for _ in range(rng.choice([2, 2, 3]))]]
     if k == "either":
@@ -133,7 +164,7 @@ def mutate(rng, v, depth, keyed, static):
         for _ in range(rng.choice([0, 1, 1, 2])):
             i = rng.randrange(5)
             a[i] = gen_attrs(rng)[i]
-        tag = v[1] if rng.random() < 0.85 else rng.randint(0, 2)
+        tag = v[1] if rng.random() < 0.85 else gen_tag(rng)
         return [2, tag, a, sub(v[3])]
     if t == 3:
         return [3, [sub(x) if rng.random() < 0.7 else x for x in v[1]]]
@@ -182,6 +213,21 @@ def has(v, code):
         return any(has(x, code) for x in v[1])
     if v[0] == 8:
         return any(has(x[1], code) for x in v[1])
+    return False
+
+
+def has_raw(v):
+    """contains a raw-text element (textarea / style / script / noscript)"""
+    if v[0] == 2:
+        return v[1] >= 3 or has_raw(v[3])
+    if v[0] in (3, 6, 7, 12):
+        return any(has_raw(x) for x in v[1])
+    if v[0] in (4, 11):
+        return has_raw(v[2])
+    if v[0] == 5:
+        return any(has_raw(x) for x in v[1])
+    if v[0] == 8:
+        return any(has_raw(x[1]) for x in v[1])
     return False
 
 
@@ -241,7 +287,7 @@ def valid_view(v, depth=0):
             return len(v) == 2 and isinstance(v[1], list) and len(v[1]) <= 3 and all(valid_view(x, depth + 1) for x in v[1])
         if t == 2:
             a = v[2]
-            return (len(v) == 4 and v[1] in (0, 1, 2) and isinstance(a, list) and len(a) == 5
+            return (len(v) == 4 and v[1] in (0, 1, 2, 3, 4, 5, 6) and isinstance(a, list) and len(a) == 5
                     and isinstance(a[0], list) and len(a[0]) <= 1 and all(_bytes(x) for x in a[0])
                     and a[1] in (0, 1) and _bytes(a[2]) and _class_ok(a[2]) and a[3] in (0, 1) and _bytes(a[4]) and len(a[4]) > 0
                     and valid_view(v[3], depth + 1))
@@ -438,7 +484,7 @@ def show(v):
             attrs += " hidden"
         attrs += " class=%r%s" % (C.show_bytes(a[2]), " class:on" if a[3] else "")
         attrs += " style:color=%s" % C.show_bytes(a[4])
-        return "<%s%s>%s</>" % (["p", "span", "div"][v[1]], attrs, show(v[3]))
+        return "<%s%s>%s</>" % (TAGS[v[1]], attrs, show(v[3]))
     if t == 3:
         return "(" + ", ".join(show(x) for x in v[1]) + ")"
     if t == 4:
@@ -468,4 +514,6 @@ def coverage_extra(results):
             for code in range(13):
                 if has(v, code):
                     shapes[names[code]] = shapes.get(names[code], 0) + 1
+            if has_raw(v):
+                shapes["raw-text element"] = shapes.get("raw-text element", 0) + 1
     return {"values_containing": shapes}
